@@ -10,6 +10,7 @@ import TrionModel.Driver.Scope
 import TrionModel.Driver.Tridas
 import TrionModel.Driver.Front
 import TrionModel.Driver.Simp
+import TrionModel.Driver.Asm
 /-! `trion-model`: one request per line on stdin, one reply per line on stdout.
 The first word selects the component; every request is self-contained (pure). -/
 open Trion.Driver
@@ -27,6 +28,7 @@ def dispatch : List String → String
   | "tridas" :: r => Tridas.handle r
   | "front" :: r => Front.handle r
   | "simp" :: r => Simp.handle r
+  | "asm" :: r => Asm.handle r
   | ["ping"] => "pong"
   | _ => "bad-op"
 
